@@ -229,6 +229,16 @@ def body(chk):
                 v = (None, "-2.5000000E+00") if j % 2 else ("7.2500000E-01", None)
                 cases.append(dict(level=level, seed=chk.seed + 3, k=None, images=(("HH", None, 2, 2),), overrides={f: v}, blank=[], files=("LED",), fs="local",
                                   tag=f"half-blank:{f[1]}:{f[3]}:{'real' if j % 2 else 'imag'}"))
+        if level == "1.5":
+            # repeated groups blanked JOINTLY: whole state vectors (all six components) at the tail / in the middle / beyond the declared
+            # count, under every declared (informational) count: each blank component surfaces as NaN, the series keeps its length
+            slot = lambda k_: [("LED", "platform_position", 0, f"positions[{k_}].{g}.{a}") for g in ("position", "velocity") for a in "xyz"]  # noqa: E731
+            patterns = {"last": [27], "last-two": [26, 27], "last-five": [23, 24, 25, 26, 27], "middle": [13], "first": [0], "beyond-11": list(range(11, 28)), "tail-of-11": [10],
+                        "all-but-first": list(range(1, 28)), "every-other": list(range(1, 28, 2))}
+            for j, (pn, slots) in enumerate(patterns.items()):
+                for inf in (None, 0, 1, 2):
+                    cases.append(dict(level=level, seed=chk.seed + 600 + j, k=j % 12, images=(("HH", None, 2, 2),), blank=[f for k_ in slots for f in slot(k_)], files=("LED",),
+                                      fs="local", informational=inf, tag=f"state-vectors:{pn}:count-alt={inf}"))
         allf = list(fields)
         cases.append(dict(level=level, seed=chk.seed + 999, k=0, images=(("HH", None, 2, 2),), blank=allf, files=("VOL", "LED", "IMG"), fs="local",
                           tag=f"all-blank:{len(allf)}"))
